@@ -31,4 +31,4 @@ def classes(m, v):
     return c
 
 
-run_shard, replay = docprop.make(ID, judge, nontrivial, classes, quick=40000, thorough=1000000)
+run_shard, replay = docprop.make(ID, judge, nontrivial, classes, quick=40000, thorough=333333)
